@@ -47,6 +47,49 @@ def local_leak(ctx, prog, own, fns, rule='LOCAL-LEAK'):
     return n
 
 
+def open_fail(ctx, prog):
+    psf_close = prog.fn('psf_close', 'sndfile.c')
+    # ------------------------------------------------------------------ OPEN-FAIL
+    ctx.rule('OPEN-FAIL', 'in sf_open, sf_open_fd, sf_open_virtual: after psf_allocate succeeded every path to a return passes psf_close (psf) or returns psf_open_file (...); '
+             'in psf_open_file every path that returns NULL passes psf_close (psf) and stores a non-zero value into sf_errno; sf_close returns psf_close (psf)', floor=5)
+    for name in ('sf_open', 'sf_open_fd', 'sf_open_virtual'):
+        f = prog.fn(name, 'sndfile.c')
+        allocs = [c for c in f.calls('psf_allocate')]
+        ctx.require(allocs, '%s does not call psf_allocate' % name)
+        through = [c for c in f.calls(('psf_close', 'psf_open_file'))]
+        ok, w = f.cfg.must_pass(allocs[0], through, edge_ok=null_edge_pruner(f, {'psf'}))
+        ctx.ob('OPEN-FAIL', name, ok, f.loc(allocs[0]), 'after psf_allocate %s' % ('every path passes psf_close or psf_open_file' if ok else
+               'a path reaches return without psf_close / psf_open_file: lines %s' % f.cfg.block_lines(w)), None)
+    f = prog.fn('psf_open_file', 'sndfile.c')
+    closes = list(f.calls('psf_close'))
+    nullrets = [r for r in f.cfg.returns() if r['kids'] and f.unwrap(f.N[r['kids'][0]]).get('v') == 0]
+    ctx.require(nullrets, 'psf_open_file has no NULL return')
+    for r in nullrets:
+        # every path entry -> this return passes psf_close: search path from entry to the return's block avoiding psf_close points
+        rp = f.cfg.point(r)
+        avoid = {f.cfg.point(c) for c in closes}
+        same = [a for a in avoid if a[0] == rp[0] and a[1] < rp[1]]
+        w = None if same else f.cfg.path_avoiding((f.cfg.entry, -1), {rp[0]}, avoid)
+        ctx.ob('OPEN-FAIL', 'psf_open_file:return-NULL@%s' % len([x for x in nullrets if x['id'] <= r['id']]), w is None, f.loc(r),
+               'NULL return %s' % ('always preceded by psf_close (psf)' if w is None else 'reachable WITHOUT psf_close: lines %s' % f.cfg.block_lines(w)), None)
+        errs = [n for (lv, n, rhs) in assigned_lvalues(f) if lv == 'sf_errno' and rhs is not None and f.unwrap(rhs).get('v') != 0]
+        avoid2 = {f.cfg.point(n) for n in errs}
+        same2 = [a for a in avoid2 if a[0] == rp[0] and a[1] < rp[1]]
+        w2 = None if same2 else f.cfg.path_avoiding((f.cfg.entry, -1), {rp[0]}, avoid2)
+        ctx.ob('OPEN-FAIL', 'psf_open_file:sf_errno@%s' % len([x for x in nullrets if x['id'] <= r['id']]), w2 is None, f.loc(r),
+               'NULL return %s' % ('always preceded by a store of the error into sf_errno' if w2 is None else 'reachable without setting sf_errno: lines %s' % f.cfg.block_lines(w2)), None)
+    f = prog.fn('sf_close', 'sndfile.c')
+    rets = [f.unwrap(f.N[r['kids'][0]]) for r in f.cfg.returns() if r['kids']]
+    okc = any(r['k'] == 'CallExpr' and r.get('callee') == 'psf_close' for r in rets)
+    ctx.ob('OPEN-FAIL', 'sf_close:returns-psf_close', okc, f.loc(f.body), 'sf_close %s' % ('returns psf_close (psf)' if okc else 'does not return the result of psf_close'), None)
+    # psf_close returns the result of psf_fclose
+    rets = [psf_close.s(psf_close.unwrap(psf_close.N[r['kids'][0]])) for r in psf_close.cfg.returns() if r['kids']]
+    fc = [(lv, n) for (lv, n, rhs) in assigned_lvalues(psf_close) if rhs is not None and psf_close.unwrap(rhs).get('callee') == 'psf_fclose']
+    ctx.ob('OPEN-FAIL', 'psf_close:calls-psf_fclose-once', len(list(psf_close.calls('psf_fclose'))) == 1 and len(list(psf_close.calls('psf_close_rsrc'))) == 1, psf_close.loc(psf_close.body),
+           'psf_close calls psf_fclose %d time(s), psf_close_rsrc %d time(s); returns %s' % (len(list(psf_close.calls('psf_fclose'))), len(list(psf_close.calls('psf_close_rsrc'))), rets), None)
+
+
+
 def run(ctx):
     prog = ctx.prog
     own = Own(prog)
@@ -190,44 +233,8 @@ def run(ctx):
     got = sorted(f['key'] for f in fctx.findings)
     ctx.fixture('LOCAL-LEAK', got == ['LOCAL-LEAK:leaky:malloc@1'], 'fixtures/c16_leak.c leaky must fire, not_leaky must not: %s' % got)
 
-    # ------------------------------------------------------------------ OPEN-FAIL
-    ctx.rule('OPEN-FAIL', 'in sf_open, sf_open_fd, sf_open_virtual: after psf_allocate succeeded every path to a return passes psf_close (psf) or returns psf_open_file (...); '
-             'in psf_open_file every path that returns NULL passes psf_close (psf) and stores a non-zero value into sf_errno; sf_close returns psf_close (psf)', floor=5)
-    for name in ('sf_open', 'sf_open_fd', 'sf_open_virtual'):
-        f = prog.fn(name, 'sndfile.c')
-        allocs = [c for c in f.calls('psf_allocate')]
-        ctx.require(allocs, '%s does not call psf_allocate' % name)
-        through = [c for c in f.calls(('psf_close', 'psf_open_file'))]
-        ok, w = f.cfg.must_pass(allocs[0], through, edge_ok=null_edge_pruner(f, {'psf'}))
-        ctx.ob('OPEN-FAIL', name, ok, f.loc(allocs[0]), 'after psf_allocate %s' % ('every path passes psf_close or psf_open_file' if ok else
-               'a path reaches return without psf_close / psf_open_file: lines %s' % f.cfg.block_lines(w)), None)
-    f = prog.fn('psf_open_file', 'sndfile.c')
-    closes = list(f.calls('psf_close'))
-    nullrets = [r for r in f.cfg.returns() if r['kids'] and f.unwrap(f.N[r['kids'][0]]).get('v') == 0]
-    ctx.require(nullrets, 'psf_open_file has no NULL return')
-    for r in nullrets:
-        # every path entry -> this return passes psf_close: search path from entry to the return's block avoiding psf_close points
-        rp = f.cfg.point(r)
-        avoid = {f.cfg.point(c) for c in closes}
-        same = [a for a in avoid if a[0] == rp[0] and a[1] < rp[1]]
-        w = None if same else f.cfg.path_avoiding((f.cfg.entry, -1), {rp[0]}, avoid)
-        ctx.ob('OPEN-FAIL', 'psf_open_file:return-NULL@%s' % len([x for x in nullrets if x['id'] <= r['id']]), w is None, f.loc(r),
-               'NULL return %s' % ('always preceded by psf_close (psf)' if w is None else 'reachable WITHOUT psf_close: lines %s' % f.cfg.block_lines(w)), None)
-        errs = [n for (lv, n, rhs) in assigned_lvalues(f) if lv == 'sf_errno' and rhs is not None and f.unwrap(rhs).get('v') != 0]
-        avoid2 = {f.cfg.point(n) for n in errs}
-        same2 = [a for a in avoid2 if a[0] == rp[0] and a[1] < rp[1]]
-        w2 = None if same2 else f.cfg.path_avoiding((f.cfg.entry, -1), {rp[0]}, avoid2)
-        ctx.ob('OPEN-FAIL', 'psf_open_file:sf_errno@%s' % len([x for x in nullrets if x['id'] <= r['id']]), w2 is None, f.loc(r),
-               'NULL return %s' % ('always preceded by a store of the error into sf_errno' if w2 is None else 'reachable without setting sf_errno: lines %s' % f.cfg.block_lines(w2)), None)
-    f = prog.fn('sf_close', 'sndfile.c')
-    rets = [f.unwrap(f.N[r['kids'][0]]) for r in f.cfg.returns() if r['kids']]
-    okc = any(r['k'] == 'CallExpr' and r.get('callee') == 'psf_close' for r in rets)
-    ctx.ob('OPEN-FAIL', 'sf_close:returns-psf_close', okc, f.loc(f.body), 'sf_close %s' % ('returns psf_close (psf)' if okc else 'does not return the result of psf_close'), None)
-    # psf_close returns the result of psf_fclose
-    rets = [psf_close.s(psf_close.unwrap(psf_close.N[r['kids'][0]])) for r in psf_close.cfg.returns() if r['kids']]
-    fc = [(lv, n) for (lv, n, rhs) in assigned_lvalues(psf_close) if rhs is not None and psf_close.unwrap(rhs).get('callee') == 'psf_fclose']
-    ctx.ob('OPEN-FAIL', 'psf_close:calls-psf_fclose-once', len(list(psf_close.calls('psf_fclose'))) == 1 and len(list(psf_close.calls('psf_close_rsrc'))) == 1, psf_close.loc(psf_close.body),
-           'psf_close calls psf_fclose %d time(s), psf_close_rsrc %d time(s); returns %s' % (len(list(psf_close.calls('psf_fclose'))), len(list(psf_close.calls('psf_close_rsrc'))), rets), None)
+    open_fail(ctx, prog)
+    psf_close = prog.fn('psf_close', 'sndfile.c')
 
     # ------------------------------------------------------------------ TMP-PAIR
     ctx.rule('TMP-PAIR', 'every FILE* field obtained from psf_open_tmpfile is fclosed, and the recorded temp name removed, in the same guarded region of a close hook', floor=1)
